@@ -54,12 +54,13 @@ class HttpWorld:
         for s in range(n_sessions):
             sess = self.sm.create_session({
                 "session_id": UUID(int=0x100 + s), "secure_session_id": UUID(int=0x200 + s), "agent_id": UUID(int=0x300 + s),
-                "circuit_code": 100 + s, "sim_ip": "10.1.%d.1" % s, "sim_port": 13000,
+                # all avatars are in the same simulators: their regions share circuit addresses and differ in everything else
+                "circuit_code": 100 + s, "sim_ip": "10.1.0.1", "sim_port": 13000,
                 "region_x": 1000 + s, "region_y": 1000, "seed_capability": "https://sim-%d-0.example.com:12043/cap/seed-%d-0" % (s, s),
             })
             sess.pending = False
             for r in range(1, n_regions):
-                sess.register_region(circuit_addr=("10.1.%d.1" % s, 13000 + r),
+                sess.register_region(circuit_addr=("10.1.0.1", 13000 + r),
                                      seed_url="https://sim-%d-%d.example.com:12043/cap/seed-%d-%d" % (s, r, s, r),
                                      handle=((1000 + s) << 32) | (1000 + r))
             self.sessions.append(sess)
